@@ -4,17 +4,25 @@ import DaeVerif.C10.Proofs
 
 Only statements a reader should audit live here (namespace `DaeVerif.C10.Props`); helper lemmas are in
 `Proofs.lean`.  Every theorem is followed by a non-vacuity `example`.
+
+Reading guide.  `kernelVal K ip` is what the datapath reads for address `ip` (an absent entry reads as the
+zero bitmap); bitmaps are numbers, "bit `i` is set" is `Nat.testBit`, so
+"`(kernelVal K ip).testBit i ↔ ∃ entry listing ip with bit i`" says *the stored bitmap is exactly the union*.
+
+* Part 1 quantifies over **all histories of `syncOwner` calls** (the tracker on its own).
+* Part 2 quantifies over **all histories of cache operations** (insert / replace / refresh, remove, family
+  removal on reject, expiry on lookup, janitor + LRU eviction, time passing, deferred refresh worker) and
+  relates the table to the *cache contents*.
 -/
 namespace DaeVerif.C10.Props
 open DaeVerif.C10
 
-/-! ## tracker level: every history of `syncOwner` calls -/
+/-! ## Part 1 — the tracker, every history of `syncOwner` calls -/
 
 /-- **The table is the union.** After any history of `syncOwner` calls (owners added, replaced with other
 addresses or another bitmap, removed; overlapping address sets; zero bitmaps; empty address sets; the
 rejected empty owner key), bit `i` of what the kernel reads for address `ip` is set exactly when some owner
-whose *latest* snapshot lists `ip` has bit `i` in its bitmap. (An absent table entry reads as the zero
-bitmap.) -/
+whose *latest* snapshot lists `ip` has bit `i` in its bitmap. -/
 theorem kernel_mirrors_owners (h : List (Owner × Snapshot)) (ip : Ip) (i : Nat) :
     (kernelVal (runSync TK.empty h).K ip).testBit i = true ↔
       ∃ o s, liveAfter (fun _ => none) h o = some s ∧ ip ∈ s.ips ∧ s.bitmap.testBit i = true :=
@@ -32,5 +40,160 @@ example :
     let h := [("a", (⟨0b101, [7, 8]⟩ : Snapshot)), ("b", ⟨0b010, [8]⟩), ("a", Snapshot.empty)]
     (runSync TK.empty h).K = [(8, 0b010)] ∧ liveAfter (fun _ => none) h "b" = some ⟨0b010, [8]⟩ ∧
       liveAfter (fun _ => none) h "a" = none := by decide
+
+/-- **The tracker's two indexes agree.** After any history: the per-address state lists exactly the owners
+whose snapshot contains the address, with their bitmaps; `merged` is the OR of those; and the table holds
+`merged` for exactly the addresses that have a state. -/
+theorem tracker_indexes_agree (h : List (Owner × Snapshot)) :
+    let s := runSync TK.empty h
+    (∀ key st, alLookup key s.t.ips = some st →
+      st.owners ≠ [] ∧ st.merged = orAll (st.owners.map (·.2)) ∧
+      ∀ o, alLookup o st.owners = (match alLookup o s.t.owners with
+        | some sn => if sn.ips.contains key then some sn.bitmap else none
+        | none => none)) ∧
+    (∀ key, alLookup key s.t.ips = none → ∀ o sn, alLookup o s.t.owners = some sn → key ∉ sn.ips) ∧
+    (∀ key, alLookup key s.K = (alLookup key s.t.ips).map (·.merged)) := by
+  intro s
+  have hI := Inv_runSync h TK.empty _ Inv_empty
+  refine ⟨?_, ?_, hI.kern⟩
+  · intro key st hst
+    obtain ⟨_, hne, hm, hl⟩ := hI.st key st hst
+    refine ⟨hne, hm, ?_⟩
+    intro o
+    rw [hl o]; unfold ownBit; rw [hI.owners o]
+    generalize liveAfter (fun _ => none) h o = x
+    cases x <;> rfl
+  · intro key hk o sn ho
+    have := hI.none key hk o
+    unfold ownBit at this
+    rw [← hI.owners o, ho] at this
+    simpa using this
+
+/-- **Batches are minimal.** After any history, the batches of the next `syncOwner` call never rewrite an
+address with the value the table already holds and never delete an address the table does not hold (the
+code relies on this: a batch delete of a missing key fails in the kernel). -/
+theorem batches_minimal (h : List (Owner × Snapshot)) (o : Owner) (s : Snapshot) (t' : Tracker) (em : Emit)
+    (hsync : syncOwner (runSync TK.empty h).t o s = some (t', em)) :
+    (∀ p ∈ em.ups, alLookup p.1 (runSync TK.empty h).K ≠ some p.2) ∧
+    (∀ k ∈ em.dels, alLookup k (runSync TK.empty h).K ≠ none) := by
+  have hI := Inv_runSync h TK.empty _ Inv_empty
+  unfold syncOwner at hsync
+  by_cases ho : o = ""
+  · simp [ho] at hsync
+  · simp only [ho, if_false, Option.some.injEq, Prod.mk.injEq] at hsync
+    obtain ⟨_, hem⟩ := hsync
+    subst hem
+    exact ⟨fun p hp => ups_minimal hI o s _ p hp, fun k hk => dels_minimal hI o s _ k hk⟩
+
+example : ∃ t' em, syncOwner (runSync TK.empty [("a", ⟨1, [7]⟩)]).t "b" ⟨2, [7, 9]⟩ = some (t', em) ∧
+    em.ups = [(7, 3), (9, 2)] ∧ em.dels = [] := ⟨_, _, rfl, by decide, by decide⟩
+
+/-- **Re-syncing what is already there sends nothing.** After any history, syncing an owner again with the
+snapshot the tracker already holds for it produces two empty batches.  (Consequence: a table that was
+emptied behind the tracker's back is *not* repopulated by replaying the cache — see the design note,
+finding "rollback".) -/
+theorem resync_sends_nothing (h : List (Owner × Snapshot)) (o : Owner) (s : Snapshot)
+    (hs : liveAfter (fun _ => none) h o = some s) (t' : Tracker) (em : Emit)
+    (hsync : syncOwner (runSync TK.empty h).t o s = some (t', em)) :
+    em.ups = [] ∧ em.dels = [] := by
+  have hI := Inv_runSync h TK.empty _ Inv_empty
+  unfold syncOwner at hsync
+  by_cases ho : o = ""
+  · simp [ho] at hsync
+  · simp only [ho, if_false, Option.some.injEq, Prod.mk.injEq] at hsync
+    obtain ⟨_, hem⟩ := hsync
+    subst hem
+    exact resync_emits_nothing hI o ho s hs
+
+example : liveAfter (fun _ => none) [("a", ⟨1, [7]⟩)] "a" = some ⟨1, [7]⟩ := by decide
+
+/-! ## Part 2 — the cache layer, every history of cache operations -/
+
+/-- The full-strength statement of the property at cache level: after ANY history of cache operations the
+table holds, for every address, exactly the union of the bitmaps of the cached entries listing it.
+**Not provable for the code as it is** — refuted below (`table_mirrors_cache_full_fails`). -/
+def table_mirrors_cache_full : Prop :=
+  ∀ (cfg : Cfg) (ops : List COp) (ip : Ip) (i : Nat),
+    let σ := crun (CState.init cfg) ops
+    (kernelVal σ.tk.K ip).testBit i = true ↔
+      ∃ key e, alLookup key σ.cache = some e ∧ ip ∈ ansIps e.ans ∧ e.bitmap.testBit i = true
+
+/-- **Headline (partial).** After any history of cache operations in which no deferred refresh was applied
+to an entry that had meanwhile been replaced or removed (`staleApplied = false`), bit `i` of what the kernel
+reads for `ip` is set exactly when some *currently cached* entry lists `ip` (among its A/AAAA answers,
+unspecified addresses excluded) and has bit `i` in its domain bitmap.
+Missing for full strength: the hypothesis; `processBpfUpdateTask` does not check that the queued entry is
+still the cached one. -/
+theorem table_mirrors_cache_partial (cfg : Cfg) (ops : List COp) (ip : Ip) (i : Nat)
+    (hs : (crun (CState.init cfg) ops).staleApplied = false) :
+    (kernelVal (crun (CState.init cfg) ops).tk.K ip).testBit i = true ↔
+      ∃ key e, alLookup key (crun (CState.init cfg) ops).cache = some e ∧ ip ∈ ansIps e.ans ∧
+        e.bitmap.testBit i = true :=
+  (CInv_run ops (CInv_init cfg)).1.cache_bit hs ip i
+
+/-- **No stale or orphaned address (partial, same hypothesis).** Every entry of the table is non-zero and
+its address is listed by a currently cached entry with a non-zero bitmap. -/
+theorem table_no_orphan_partial (cfg : Cfg) (ops : List COp) (ip : Ip) (v : Bitmap)
+    (hs : (crun (CState.init cfg) ops).staleApplied = false)
+    (hv : alLookup ip (crun (CState.init cfg) ops).tk.K = some v) :
+    v ≠ 0 ∧ ∃ key e, alLookup key (crun (CState.init cfg) ops).cache = some e ∧ ip ∈ ansIps e.ans ∧
+      e.bitmap ≠ 0 :=
+  (CInv_run ops (CInv_init cfg)).1.cache_no_orphan hs ip v hv
+
+/-- the same as an equation with the executable specification the driver prints (`m=` flag). -/
+theorem table_eq_spec_partial (cfg : Cfg) (ops : List COp) (ip : Ip)
+    (hs : (crun (CState.init cfg) ops).staleApplied = false) :
+    kernelVal (crun (CState.init cfg) ops).tk.K ip = specOr (crun (CState.init cfg) ops).cache ip :=
+  (CInv_run ops (CInv_init cfg)).1.kernel_eq_spec hs ip
+
+/-- the executable check the driver prints as `m=` (table = specification on every address that occurs, no
+zero entry) is true whenever `s=0`: a `m=0 s=0` line from the driver is impossible. -/
+theorem driver_mirror_flag_partial (cfg : Cfg) (ops : List COp)
+    (hs : (crun (CState.init cfg) ops).staleApplied = false) :
+    mirrorOk (crun (CState.init cfg) ops).cache (crun (CState.init cfg) ops).tk.K = true :=
+  (CInv_run ops (CInv_init cfg)).1.mirrorOk_true hs
+
+-- non-vacuity: two scopes of one name plus another name share an address; one expires on lookup, one is
+-- replaced with another address; hypothesis holds, table non-empty, cache non-empty.
+example :
+    let ops : List COp := [.put "a.com.1" 10 none 0b01 [.a4 1, .a4 2], .put "a.com.1|up" 100 none 0b01 [.a4 1],
+      .put "b.com.1" 100 none 0b10 [.a4m 1, .a6 0], .sleep (10 * sec), .look "a.com.1" false,
+      .put "b.com.1" 100 none 0b10 [.a4 3], .work]
+    let σ := crun (CState.init ⟨false, 0, 0⟩) ops
+    σ.staleApplied = false ∧ σ.tk.K = [(mapped4 3, 0b10), (mapped4 1, 0b01)] ∧ σ.cache.length = 2 := by decide
+
+/-- **Unconditionally** (stale refresh or not) the table mirrors the tracker's own owner snapshots: whatever
+goes wrong can only be a wrong snapshot handed to `syncOwner`, never a wrong batch. -/
+theorem table_mirrors_tracker_always (cfg : Cfg) (ops : List COp) (ip : Ip) (i : Nat) :
+    (kernelVal (crun (CState.init cfg) ops).tk.K ip).testBit i = true ↔
+      ∃ o s, alLookup o (crun (CState.init cfg) ops).tk.t.owners = some s ∧ ip ∈ s.ips ∧
+        s.bitmap.testBit i = true :=
+  (CInv_run ops (CInv_init cfg)).1.tracker_bit ip i
+
+/-- The hypothesis of the partial theorems holds for every history without a `work` step … -/
+theorem no_work_no_stale (cfg : Cfg) (ops : List COp) (h : ∀ op ∈ ops, op ≠ COp.work) :
+    (crun (CState.init cfg) ops).staleApplied = false :=
+  stale_of_no_work ops (CState.init cfg) h rfl
+
+/-- … and for every history in which each refresh is applied right after the lookup that queued it (the
+worker wins the race): a `work` directly after `look` on an empty queue is never stale. -/
+theorem look_then_work_fresh (σ : CState) (hp : σ.pending = []) (key : String) (ig : Bool) :
+    (cstep (cstep σ (.look key ig)) .work).staleApplied = σ.staleApplied :=
+  look_work_fresh σ hp key ig
+
+/-- **The full statement fails for the code as it is**: insert, wait 60 s, look up (queues a refresh),
+remove, worker runs — the table keeps an address no cached entry lists. -/
+theorem table_mirrors_cache_full_fails : ¬ table_mirrors_cache_full := by
+  intro h
+  have := h ⟨false, 0, 0⟩
+    [.put "k" 100 none 1 [.a4 1], .sleep (60 * sec), .look "k" false, .del "k", .work] (mapped4 1) 0
+  have hc : (crun (CState.init ⟨false, 0, 0⟩)
+    [.put "k" 100 none 1 [.a4 1], .sleep (60 * sec), .look "k" false, .del "k", .work]).cache = [] := by decide
+  have hk : (kernelVal (crun (CState.init ⟨false, 0, 0⟩)
+    [.put "k" 100 none 1 [.a4 1], .sleep (60 * sec), .look "k" false, .del "k", .work]).tk.K (mapped4 1)).testBit 0
+      = true := by decide
+  obtain ⟨key, e, hl, _, _⟩ := this.mp hk
+  rw [hc] at hl
+  cases hl
 
 end DaeVerif.C10.Props
